@@ -92,6 +92,9 @@ func buildRequest(q Req, log *simfw.Log, party *string) (*http.Request, *simenv.
 		req, _ = http.NewRequest("GET", "http://sim.test/", nil)
 	}
 	serverSide(req)
+	if q.Host != "" {
+		req.Host = q.Host
+	}
 	for _, h := range q.Headers {
 		req.Header.Add(h[0], h[1])
 	}
@@ -128,6 +131,9 @@ func neutralRequest(q Req) *http.Request {
 		req, _ = http.NewRequest("GET", "http://sim.test/", nil)
 	}
 	serverSide(req)
+	if q.Host != "" {
+		req.Host = q.Host
+	}
 	for _, h := range q.Headers {
 		req.Header.Add(h[0], h[1])
 	}
